@@ -4,7 +4,7 @@
 From Coq Require Import ZArith List Bool.
 From CiwV Require Import Sx Prelude.
 From CiwV.Engine Require Import State2 Engine2 Codec2.
-From CiwV.Inv Require Conserve2 Sched2 Preempt2 Renege2 Route2 Samples2 Blocking2 Servers2 Clock2 HorizonCount2 Journey2 Horizon2 Clock2r Inversion2.
+From CiwV.Inv Require Conserve2 Sched2 Preempt2 Renege2 Route2 Samples2 Blocking2 Servers2 Clock2 HorizonCount2 Journey2 Horizon2 Clock2r Inversion2 Journey2s.
 Import ListNotations.
 Open Scope Z_scope.
 
@@ -66,7 +66,7 @@ Qed.
 Print Assumptions invs2_b_sound.
 
 (* C03 on stage 2: the journey invariant on a real snapshot together with the REAL cumulative record history and the real arrival nodes
-   (dispatch_model 40): L [cfg; state; L records (as Codec2.enc_rec writes them); L [L [A id; A node]; ...]] -> A 1 / A 0 / A 2 (outside Journey2.scope2) *)
+   (dispatch_model 40): L [cfg; state; L records (as Codec2.enc_rec writes them); L [L [A id; A node]; ...]] -> A 1 / A 0 / A 2 (outside Journey2s.scope2s, which extends Journey2.scope2 to pre-emptive Schedules) *)
 Definition dec_rec (s : sx) : option rec :=
   match s with
   | L [A i; A c; A oc; A n; A t; a; w; ss; st; se; b; e; d; qa; qd; sv] =>
@@ -81,10 +81,10 @@ Definition run_jrn2_real (inp : sx) : sx :=
   match inp with
   | L [c; s; h; a] =>
     match dec_cfg c, dec_sim s (L [L []; L []; L []; L []; L []; L []]), (do l <- getL h; omap dec_rec l), (do l <- getL a; omap dec_pair l) with
-    | Some cf, Some st, Some hs, Some al => if Journey2.scope2 cf then bit (Journey2.jrn2_b cf (an_of al) st hs) else A 2
+    | Some cf, Some st, Some hs, Some al => if Journey2s.scope2s cf then bit (Journey2s.jrn2s_b cf (an_of al) st hs) else A 2
     | _, _, _, _ => A (-1)
     end
   | _ => A (-1)
   end.
-Theorem run_jrn2_real_sound cf st hs al : Journey2.jrn2_b cf (an_of al) st hs = true -> Journey2.Jrn2 cf (an_of al) st hs.
-Proof. apply Journey2.jrn2_b_sound. Qed.
+Theorem run_jrn2_real_sound cf st hs al : Journey2s.jrn2s_b cf (an_of al) st hs = true -> Journey2s.Jrn2s cf (an_of al) st hs.
+Proof. apply Journey2s.jrn2s_b_sound. Qed.
